@@ -166,3 +166,70 @@ Proof.
     + intros b [<-|[]]. reflexivity.
     + intros b [].
 Qed.
+
+(* ---- shapes: values are their shapes -------------------------------------------------------------------
+   V = list nat; a node function returns the shape of highest rank among its arguments (elementwise
+   calculation / log-probability with broadcasting); batch shape of a distribution = that of its
+   parameters, scalar events; tfp's sample(sh, seed) has shape sh ++ batch.
+   Graph A, built on scalars; then auto-update off, x and y are assigned vectors of length 3 WITHOUT
+   update: the cached calculation c between them still holds a scalar and is flagged outdated. *)
+Definition shi (f : nat) (args : list (list nat)) : list nat :=
+  fold_left (fun acc a => if length acc <? length a then a else acc) args [].
+Definition sh_bshape (f : nat) (ps : list (list nat)) : list nat := shi f ps.
+Definition sh_eshape (f : nat) : list nat := [].
+Definition sh_draw (f : nat) (sd : nat) (ps : list (list nat)) (sh : list nat) : list nat :=
+  sh ++ sh_bshape f ps ++ sh_eshape f.
+Definition sh_id (v : list nat) : list nat := v.
+Definition sh_sample := tfp_sample sh_id sh_bshape sh_eshape sh_draw.
+
+Definition ext0S : list (list nat) := [[]; []; []; []; []; []; []; []].
+Definition rsS_stale := run shi [] gA [SetAuto false; Assign 1 [3]; Assign 5 [3]] (init shi [] gA ext0S).
+Definition rsS_fresh := run shi [] gA [SetAuto false; Assign 1 [3]; Assign 5 [3]; Update []] (init shi [] gA ext0S).
+
+Lemma sh_draw_shape : forall f sd ps sh, sh_id (sh_draw f sd ps sh) = sh ++ sh_bshape f ps ++ sh_eshape f.
+Proof. reflexivity. Qed.
+
+Lemma rsS_stale_RInv : RInv (list nat) nat shi [] gA rsS_stale.
+Proof. apply run_RInv; [exact gA_wf|]. apply init_RInv. exact gA_wf. Qed.
+
+(* entry state: c (node 4) is outdated and still holds a scalar, x and y hold vectors of length 3 *)
+Lemma exS_entry :
+  flags_all gA (cur rsS_stale) = [false; false; false; true; true; false; false; true]
+  /\ getv [] (vals (cur rsS_stale)) 4 = [] /\ getv [] (vals (cur rsS_stale)) 1 = [3]
+  /\ getv [] (vals (cur rsS_stale)) 5 = [3].
+Proof. vm_compute. repeat split. Qed.
+
+(* the code (shapes from the refreshed distribution): x and y keep the shape (3,) *)
+Lemma exS_kept :
+  let r := simulate_lit shi [] sh_sample RefreshInputs gA rsS_stale [DX; DY] [] [0; 0] in
+  snd r = false /\ getv [] (vals (cur (fst r))) 1 = [3] /\ getv [] (vals (cur (fst r))) 5 = [3].
+Proof. vm_compute. repeat split. Qed.
+
+(* hoisted sample shapes (seeded change C17-3): y goes from (3,) to (3, 3) on the stale entry state;
+   on the updated entry state both variants agree *)
+Theorem hoisted_witness :
+  (let r := simulate_hoisted sh_id sh_bshape sh_eshape sh_draw [] (lit shi []) (values_all shi [])
+                             gA rsS_stale [DX; DY] [] [0; 0] in
+   snd r = false /\ getv [] (vals (cur (fst r))) 1 = [3] /\ getv [] (vals (cur (fst r))) 5 = [3; 3])
+  /\ simulate_hoisted sh_id sh_bshape sh_eshape sh_draw [] (lit shi []) (values_all shi [])
+                      gA rsS_fresh [DX; DY] [] [0; 0]
+     = simulate_lit shi [] sh_sample RefreshInputs gA rsS_fresh [DX; DY] [] [0; 0].
+Proof. vm_compute. repeat split. Qed.
+
+(* the hypotheses of simulate_shapes hold of this entry state, including the compatibility premise of
+   [shapes_kept] for both variables *)
+Lemma exS_hyps :
+  let ds := combine (filter (selected []) [DX; DY]) [0; 0] in
+  wf gA /\ RInv (list nat) nat shi [] gA rsS_stale
+  /\ (exists k, outdated gA (cur rsS_stale) k = true)
+  /\ Forall (dinfo_ok nat gA) (map fst ds) /\ Forall (tgt_value nat gA) (map fst ds)
+  /\ order_ok gA (map fst ds)
+  /\ (forall f sd ps sh, sh_id (sh_draw f sd ps sh) = sh ++ sh_bshape f ps ++ sh_eshape f).
+Proof.
+  split; [exact gA_wf|]. split; [exact rsS_stale_RInv|]. split; [exists 4; reflexivity|].
+  split; [|split; [|split]].
+  - repeat constructor; apply (dinfo_okb_ok nat gA gA_wf); reflexivity.
+  - repeat constructor; apply tgt_valueb_ok; reflexivity.
+  - apply (order_okb_ok gA gA_wf). reflexivity.
+  - exact sh_draw_shape.
+Qed.
